@@ -20,7 +20,7 @@ REQUIRED_THEOREMS = ['clock24', 'clock24_partial', 'clock24_hour0_unresolved', '
                      'date_at_time_cultures', 'designator_cultures', 'afternoon_12_both_readings', 'afternoon_12_repaired',
                      'clock24_zh', 'zh_ampm_any_hour_witness', 'zh_1913_guarded', 'zh_designator_examples',
                      'date_at_designator', 'date_at_designator_cultures', 'date_word_shift', 'night_alone_is_2am',
-                     'night_attached_shift']
+                     'night_attached_shift', 'time_of_today_pm_word', 'time_of_today_morning', 'tonight_examples']
 RULE = ('unit: DateTimeFormatUtil over full ranges (luis_time/short_time 24x60x{none,0..59}, luis_date, format_*, '
         'to_pm, all_str_to_pm); match_to_time on every match of AtRegex/TimeRegex1..11/ConnectNumRegex over generated '
         'English time strings (digits x minutes x seconds x am/pm spellings x prefixes x suffixes x written forms); '
@@ -818,6 +818,16 @@ def pipeline(ctx, variant):
                         tpart = 'T%02d' % hh + (':%02d' % mm if ':' in w else '')
                         add('designator-attached:' + culture, form.format(d=d, w=w), ref, 'datetime',
                             [(tx + tpart, val + ' %02d:%02d:00' % (hh, mm)) for tx, val in dv], '%s', culture)
+        for word, kind, lo, hi in spec.get('today_words', []):
+            for h in range(lo, hi + 1):
+                for mi in (None, 5 * h % 60):
+                    for ref in wrefs:
+                        hh = h + (12 if kind == 'pm' else 0)
+                        dtx = '%04d-%02d-%02d' % ref[:3]
+                        tstr = '%d' % h + (':%02d' % mi if mi is not None else '')
+                        add('today-word:' + culture, '%s at %s' % (word, tstr), ref, 'datetime',
+                            [(dtx + 'T%02d' % hh + (':%02d' % mi if mi is not None else ''),
+                              dtx + ' %02d:%02d:00' % (hh, mi or 0))], '%s', culture)
         for w, hh, mm in spec.get('designators', []):
             add('designator-alone:' + culture, w, wrefs[0], 'time',
                 [('T%02d' % hh + (':%02d' % mm if ':' in w else ''), '%02d:%02d:00' % (hh, mm))], '%s', culture)
